@@ -1,5 +1,12 @@
 import SluVerif.Props.C02
 import SluVerif.Props.Checkers
+import SluVerif.Props.LU
+#print axioms Slu.factor_identity
+#print axioms Slu.factor_identity_permuted
+#print axioms Slu.factor_unit_lower
+#print axioms Slu.factor_upper
+#print axioms Slu.factor_bijection
+#print axioms Slu.factor_permR_isPerm
 #print axioms Slu.pivot_singular_iff
 #print axioms Slu.pivot_singular_shape
 #print axioms Slu.pivot_outOfRange_iff
